@@ -61,6 +61,7 @@ type stream struct {
 	ntap    int
 	// counters
 	stalledFired, dripFired bool
+	stallBegan              int64 // virtual time at which the first suppressed byte was written; -1: not yet
 }
 
 //go:norace
@@ -139,6 +140,9 @@ func (s *stream) nextArrival(now int64) int64 {
 
 //go:norace
 func (s *stream) push(p []byte, now int64) {
+	if s.stallAt >= 0 && s.stallBegan < 0 && s.w+int64(len(p)) > s.stallAt && len(p) > 0 {
+		s.stallBegan = now
+	}
 	for _, b := range p {
 		s.buf[s.w%s.window()] = b
 		s.w++
@@ -233,7 +237,7 @@ func NewPipe(k *Kernel, id int, f ConnFaults) *Pipe {
 	for _, s := range []*stream{&p.c2s, &p.s2c} {
 		s.buf = make([]byte, w)
 		s.latency = lat
-		s.stallAt, s.dripAt, s.dripT0 = -1, -1, -1
+		s.stallAt, s.dripAt, s.dripT0, s.stallBegan = -1, -1, -1, -1
 		s.tap = make([]byte, 8192)
 	}
 	if f.C2SStall {
@@ -292,6 +296,12 @@ func (p *Pipe) DripS2CFrom(off int64, dt int64) { p.s2c.dripAt = off; p.s2c.drip
 //
 //go:norace
 func (p *Pipe) StallC2SFrom(off int64) { p.c2s.stallAt = off }
+
+// StallBegan returns the virtual instants at which the first suppressed byte was written in each
+// direction (-1: the stall never took effect).
+//
+//go:norace
+func (p *Pipe) StallBegan() (s2c, c2s int64) { return p.s2c.stallBegan, p.c2s.stallBegan }
 
 //go:norace
 func (p *Pipe) Fired() (s2cStall, s2cDrip, c2sStall bool) {
